@@ -104,6 +104,33 @@ mutual
       | _, _ => none
 end
 
+/-! ### typed lists edited in place -/
+
+/-- `typedlist._pack()` over the elements as Python holds them: `.inl` an element already of the element type,
+    `.inr` a plain value appended in place, which `self.__type__(f)` converts first (`conv`; `none` = the constructor
+    raises) - when the source does so (`Gen.typedlistPackConvertsRaw`); otherwise the model has nothing to say. -/
+def packHeld {R : Type} (conv : R → Option TVal) (k : Kind) : List (TVal ⊕ R) → Option (List PV)
+  | [] => some []
+  | .inl t :: xs =>
+    match packT k t, packHeld conv k xs with
+    | some a, some r => some (a :: r)
+    | _, _ => none
+  | .inr r :: xs =>
+    if Gen.typedlistPackConvertsRaw then
+      match (conv r).bind (packT k), packHeld conv k xs with
+      | some a, some r => some (a :: r)
+      | _, _ => none
+    else none
+
+/-- the elements such a list stands for: every plain element as its element type -/
+def heldValues {R : Type} (conv : R → Option TVal) : List (TVal ⊕ R) → Option (List TVal)
+  | [] => some []
+  | .inl t :: xs => (heldValues conv xs).map (t :: ·)
+  | .inr r :: xs =>
+    match conv r, heldValues conv xs with
+    | some t, some ts => some (t :: ts)
+    | _, _ => none
+
 def hexOpt : RV → Option (Option Str)
   | .none => some none
   | .bytes b => some (if b.isEmpty then none else some (hexlify b))      -- `if data[i]` : an empty digest is falsy
